@@ -659,7 +659,9 @@ v("c15-join-cleanup-by-endswith", "C15", PB,
 v("c15-polars-new-alias", "C15", "polars_model.py",
   "                [_build_lit(op.a_name).alias(op.id_column)]", "                [_build_lit(op.a_name).alias(op.id_column), _build_lit(0).alias(\"_da_side\")]")
 v("c15-sql-new-view-name", "C15", SM,
-  "        view_name = \"select_rows_\" + str(temp_id_source[0])", "        view_name = \"filter_\" + str(temp_id_source[0])")
+  "        view_name = \"select_rows_\" + str(temp_id_source[0])", "        view_name = \"filter_\" + str(temp_id_source[0])", expect="silent")
+v("c15-sql-unnumbered-view-name", "C15", SM,
+  "        view_name = \"select_rows_\" + str(temp_id_source[0])", "        view_name = \"select_rows_step\"")
 v("c15-polars-suffixes-overlap", "C15", "polars_model.py",
   "                suffix=\"_da_left_tmp\",", "                suffix=\"_right_tmp\",")
 v("c15-twin-unrelated-constant-key", "C15", PB,
@@ -991,3 +993,6 @@ v("d77-concat-spells-missing", "C05", PB,
 v("d78-polars-coalesce-exempts-right-keys", "C16", PM,
   "            ) - set([ka for ka, kb in zip(op.on_a, op.on_b) if ka == kb])\n            orphan_keys = [c for c in op.on_a if c not in set(op.on_b)]",
   "            ) - set(op.on_b)\n            orphan_keys = [c for c in op.on_a if c not in set(op.on_b)]")
+
+v("d79-step-numbering-ignores-table-names", "C15", SM,
+  "                temp_id_source[0] = max(\n                    temp_id_source[0], int(trailing_number.group(1)) + 1\n                )\n", "                pass\n")
